@@ -1,1 +1,119 @@
-import EoNVerif.Basic
+import EoNVerif.Model.Args
+/-!
+C19 — calls do not modify their arguments and can be repeated: theorems about the heap model of the argument
+prologues (Model/Args.lean).  The model is tied to the code by the C19 check, which snapshots the real argument
+objects (shape, dtype, values; graphs; containers) around two consecutive calls of every entry point.
+-/
+namespace Args
+
+theorem lookup_append_of_some (h : Heap) (id : Nat) (x : Arr) (e : Nat × Arr) (hx : lookup h id = some x) :
+    lookup (h ++ [e]) id = some x := by
+  induction h with
+  | nil => simp [lookup] at hx
+  | cons p t ih =>
+    simp only [List.cons_append, lookup] at hx ⊢
+    by_cases hp : p.1 = id
+    · simpa [hp] using hx
+    · simp only [hp, ↓reduceIte] at hx ⊢; exact ih hx
+
+theorem le_foldl_max (l : List Nat) (init : Nat) : init ≤ l.foldl max init ∧ ∀ x ∈ l, x ≤ l.foldl max init := by
+  induction l generalizing init with
+  | nil => simp
+  | cons y t ih =>
+    simp only [List.foldl_cons, List.mem_cons]
+    obtain ⟨h1, h2⟩ := ih (max init y)
+    refine ⟨by omega, ?_⟩
+    intro x hx
+    rcases hx with rfl | hx
+    · omega
+    · exact h2 x hx
+
+theorem fresh_not_mem (h : Heap) : ∀ p ∈ h, p.1 ≠ fresh h := by
+  intro p hp
+  have := (le_foldl_max (h.map (·.1)) 0).2 p.1 (List.mem_map.mpr ⟨p, hp, rfl⟩)
+  unfold fresh; omega
+
+theorem lookup_some_mem (h : Heap) (id : Nat) (x : Arr) (hx : lookup h id = some x) : ∃ p ∈ h, p.1 = id := by
+  induction h with
+  | nil => simp [lookup] at hx
+  | cons p t ih =>
+    simp only [lookup] at hx
+    by_cases hp : p.1 = id
+    · exact ⟨p, List.mem_cons_self, hp⟩
+    · simp only [hp, ↓reduceIte] at hx
+      obtain ⟨q, hq, hq'⟩ := ih hx
+      exact ⟨q, List.mem_cons_of_mem _ hq, hq'⟩
+
+/-- reshaping object `id'` leaves every other object untouched -/
+theorem lookup_reshape_ne (h : Heap) (id id' : Nat) (sh : List Nat) (hne : id ≠ id') :
+    lookup (reshape h id' sh) id = lookup h id := by
+  induction h with
+  | nil => rfl
+  | cons p t ih =>
+    have ih' : lookup (List.map (fun p => if p.1 = id' then (p.1, { p.2 with shape := sh }) else p) t) id = lookup t id := ih
+    simp only [reshape, List.map_cons, lookup]
+    by_cases hp : p.1 = id'
+    · have h1 : ¬ p.1 = id := by omega
+      simp only [hp, ↓reduceIte]
+      have h2 : ¬ id' = id := by omega
+      simp only [h2, ↓reduceIte]
+      rw [hp] at h1
+      simpa using ih'
+    · simp only [hp, ↓reduceIte]
+      by_cases hq : p.1 = id
+      · simp [hq]
+      · simp only [hq, ↓reduceIte]; exact ih'
+
+/-- copying allocates a fresh object and leaves every existing object untouched -/
+theorem copyObj_preserves (h : Heap) (id : Nat) (j : Nat) (x : Arr) (hx : lookup h j = some x) :
+    lookup (copyObj h id).1 j = some x ∧ (copyObj h id).2 ≠ j ∨ (copyObj h id) = (h, id) := by
+  unfold copyObj
+  cases hl : lookup h id with
+  | none => right; rfl
+  | some a =>
+    left
+    refine ⟨lookup_append_of_some h j x _ hx, ?_⟩
+    obtain ⟨p, hp, hpj⟩ := lookup_some_mem h j x hx
+    have := fresh_not_mem h p hp
+    simp only; omega
+
+/-- **the repaired prologue does not modify any of the caller's objects**: every object that existed before the call
+has the same shape and data afterwards (the caller's `a` and `b` included) -/
+theorem prologueFixed_preserves (h : Heap) (a b k : Nat) (xa xb : Arr)
+    (ha : lookup h a = some xa) (hb : lookup h b = some xb) (j : Nat) (x : Arr) (hx : lookup h j = some x) :
+    lookup (prologueFixed h a b k).1 j = some x := by
+  unfold prologueFixed
+  have h1 : copyObj h a = (h ++ [(fresh h, xa)], fresh h) := by simp [copyObj, ha]
+  have hb1 : lookup (h ++ [(fresh h, xa)]) b = some xb := lookup_append_of_some h b xb _ hb
+  have h2 : copyObj (h ++ [(fresh h, xa)]) b =
+      ((h ++ [(fresh h, xa)]) ++ [(fresh (h ++ [(fresh h, xa)]), xb)], fresh (h ++ [(fresh h, xa)])) := by
+    simp [copyObj, hb1]
+  simp only [h1, h2]
+  obtain ⟨p, hp, hpj⟩ := lookup_some_mem h j x hx
+  have hj1 : j ≠ fresh h := by have := fresh_not_mem h p hp; omega
+  have hx1 : lookup (h ++ [(fresh h, xa)]) j = some x := lookup_append_of_some h j x _ hx
+  obtain ⟨q, hq, hqj⟩ := lookup_some_mem _ j x hx1
+  have hj2 : j ≠ fresh (h ++ [(fresh h, xa)]) := by have := fresh_not_mem _ q hq; omega
+  rw [lookup_reshape_ne _ _ _ _ hj2, lookup_reshape_ne _ _ _ _ hj1]
+  exact lookup_append_of_some _ j x _ hx1
+
+/-- **a second call sees the same arguments**: the integrator input built from the heap after a first call equals
+the input built from the original heap -/
+theorem second_call_same (h : Heap) (a b k : Nat) (xa xb : Arr)
+    (ha : lookup h a = some xa) (hb : lookup h b = some xb) :
+    lookup (prologueFixed h a b k).1 a = some xa ∧ lookup (prologueFixed h a b k).1 b = some xb :=
+  ⟨prologueFixed_preserves h a b k xa xb ha hb a xa ha, prologueFixed_preserves h a b k xa xb ha hb b xb hb⟩
+
+/-- the code before the repair does change the caller's object (the defect the C19 check found): a 2×2 argument
+comes back with shape [4,1] -/
+theorem prologueOld_modifies :
+    lookup (prologueOld [(0, ⟨[2, 2], [1, 2, 3, 4]⟩), (1, ⟨[2, 2], [5, 6, 7, 8]⟩)] 0 1 2).1 0
+      = some ⟨[4, 1], [1, 2, 3, 4]⟩ := by decide +kernel
+
+/-- non-vacuity of `prologueFixed_preserves` on the same heap -/
+example : lookup (prologueFixed [(0, ⟨[2, 2], [1, 2, 3, 4]⟩), (1, ⟨[2, 2], [5, 6, 7, 8]⟩)] 0 1 2).1 0
+      = some ⟨[2, 2], [1, 2, 3, 4]⟩ ∧
+    solverInput (prologueFixed [(0, ⟨[2, 2], [1, 2, 3, 4]⟩), (1, ⟨[2, 2], [5, 6, 7, 8]⟩)] 0 1 2)
+      = some ([1, 2, 3, 4], [5, 6, 7, 8]) := by decide +kernel
+
+end Args
